@@ -77,6 +77,11 @@ def op_const(o):
     """python value of a constant operand: int, bool, str, bytes, float-string, or None"""
     if not o or o.get("k") != "const":
         return None
+    if "ev" in o:
+        # named constant evaluated by the driver
+        if o.get("ty") == "bool":
+            return o["ev"] != "0"
+        return int(o["ev"])
     v = o["v"]
     if v.startswith("const "):
         v = v[6:]
